@@ -271,6 +271,33 @@ func (g *commonGen) template(w *World, name string, b int) []Step {
 			out = append(out, Step{Kind: "totp_validate", B: b, A: v, Sec: &SecretRef{Kind: "totp", A: a}})
 		}
 		return out
+	case "sms_send_fails":
+		// the adversary passes his own password step (code to his phone), waits
+		// out the resend window, passes the victim's password step while the
+		// SMS gateway fails, then presents his own code
+		var withSMS []int
+		for i := range w.Accts {
+			if w.KB.SMSNumber[i] != "" {
+				withSMS = append(withSMS, i)
+			}
+		}
+		if len(withSMS) < 2 {
+			return nil
+		}
+		p := g.r.Perm(len(withSMS))
+		adv, v := withSMS[p[0]], withSMS[p[1]]
+		gap := 10*time.Second + g.r.Dur(0, 20*time.Second)
+		if g.r.Chance(1, 4) {
+			gap = g.r.Dur(0, 9*time.Second)
+		}
+		if c.WholeSecondClock {
+			gap = gap.Round(time.Second)
+		}
+		return []Step{{Kind: "drop_session", B: b}, {Kind: "login", B: b, A: adv, Sec: pw(adv)},
+			{Kind: "login", B: b, A: v, Sec: pw(v), Gap: gap, Fault: &FaultDirective{Site: "sms.send", Index: 0, Kind: "err"}},
+			// (the harness sees every code, also the one the failed send never delivered: -2 is the adversary's)
+			{Kind: "sms_validate", B: b, A: v, Sec: &SecretRef{Kind: "sms", A: -1, Idx: -2}},
+			{Kind: "sms_validate", B: b, A: v, Sec: &SecretRef{Kind: "sms", A: -1, Idx: -1}}}
 	case "adversary_codes":
 		// victim's password, then every code the adversary can get hold of
 		v := g.otherAcct(w, a)
@@ -338,6 +365,34 @@ func (g *commonGen) template(w *World, name string, b int) []Step {
 			out = append(out, Step{Kind: "recover_start", B: b, A: a}, Step{Kind: "recover_end", B: b, A: a, Sec: &SecretRef{Kind: "recover", A: a, Idx: -1}, Sec2: &SecretRef{Kind: "literal", Lit: "G00d-enough!pw"}})
 		}
 		out = append(out, g.fill(w, "probe", b))
+		return out
+	case "regate_while_logged_in":
+		// a logged-in session passes the guard, the operator then locks the
+		// account / re-starts its confirmation, the same session comes back
+		guard := "/probe/lock"
+		op := "op_lock"
+		if c.hasModule("confirm") && (g.r.Bool() || !c.hasModule("lock")) {
+			guard, op = "/probe/confirm", "op_start_confirm"
+		}
+		if !c.hasModule("lock") && !c.hasModule("confirm") {
+			return nil
+		}
+		// an account that currently passes the gate and has no second factor
+		for i := range w.Accts {
+			row := w.DB.rows[w.Accts[i].PID]
+			if row != nil && row.Confirmed && !row.Locked.After(time.Now()) && w.KB.TOTPSecret[i] == "" && w.KB.SMSNumber[i] == "" {
+				a = i
+			}
+		}
+		pr := func() Step { return Step{Kind: "probe", B: b, Str: map[string]string{"path": guard}} }
+		out := []Step{{Kind: "drop_session", B: b}, {Kind: "login", B: b, A: a, Sec: pw(a)}, pr()}
+		if g.r.Bool() {
+			out = append(out, pr())
+		}
+		out = append(out, Step{Kind: op, B: b, A: a}, pr())
+		if g.r.Chance(1, 3) {
+			out = append(out, Step{Kind: "restart", B: b}, pr())
+		}
 		return out
 	case "oauth_gated":
 		prov := c.Providers[g.r.Intn(len(c.Providers))]
@@ -456,6 +511,23 @@ func (g *commonGen) template(w *World, name string, b int) []Step {
 			}
 		}
 		return out
+	case "upgrade_to_expire":
+		// sessions established before the expire module was deployed carry no
+		// activity stamp; the deployment is the first restart
+		if !c.ExpireLate || w.expireOn {
+			return g.template(w, "idle_probe", b)
+		}
+		for i := range w.Accts {
+			if w.KB.TOTPSecret[i] == "" && w.KB.SMSNumber[i] == "" {
+				a = i
+			}
+		}
+		pr := func(gap time.Duration) Step {
+			return Step{Kind: "probe", B: b, Gap: gap, Str: map[string]string{"path": "/probe/open"}}
+		}
+		E := c.ExpireAfter
+		return []Step{{Kind: "drop_session", B: b}, {Kind: "login", B: b, A: a, Sec: pw(a)}, pr(0), {Kind: "restart", B: b, Gap: g.r.Dur(0, 2*E)},
+			pr(0), pr(E / 2), pr(E + time.Second + g.r.Dur(0, E)), pr(0)}
 	case "relogin_after_idle":
 		// log in, stay idle around / beyond the threshold, log in again in the same browser
 		gap := durationsAround(g.r, c.ExpireAfter)
